@@ -663,6 +663,30 @@ def judge(pre_xml, msg_xml, post_xml, outcome, warns, exc_mro=()):
     return v
 
 
+def _multiset_delete(L, post_ids, sources, mos_warns, NF, kind, D):
+    """C06 for a delete where IDs repeat (in the running order / story, or in the message): each listing
+    of an ID removes one element with that ID while one is left, and is reported (one warning) when none is.
+    Which of several same-ID elements goes first is not claimed - only how many of each ID remain, and the
+    number of reports."""
+    remaining = Counter(L)
+    want_warn = 0
+    for r in sources:
+        if r[0] == 'id' and remaining.get(r[1], 0) > 0:
+            remaining[r[1]] -= 1
+        else:
+            want_warn += 1
+    remaining = +remaining
+    got = Counter(post_ids)
+    if +got != remaining:
+        D.append(Dev('C06', 'listed-id-not-acted-on',
+                     {'kind': kind, 'pre': L, 'post': post_ids, 'sources': sources,
+                      'why': 'IDs repeat: every listing removes one element with that ID while one is left'}))
+    elif Counter(mos_warns).get(NF, 0) != want_warn:
+        D.append(Dev('C06', 'unreported-element' if Counter(mos_warns).get(NF, 0) < want_warn else 'warning-on-fully-applied',
+                     {'kind': kind, 'expected': {NF: want_warn}, 'observed': dict(Counter(mos_warns)),
+                      'why': 'delete over repeated IDs'}))
+
+
 BLANK_CARRIED_NOTES = {'carried story with blank ID', 'carried item with blank ID'}
 
 
@@ -814,6 +838,8 @@ def _judge_story(pre, post, m, raised, mos_warns, D, v):
         if op == 'send':
             refs = [m.story_ref]
         nothing_resolves = bool(refs) and not any(r[0] == 'id' and r[1] in known for r in refs)
+        if op == 'delete' and not raised and not nothing_resolves:
+            _multiset_delete(L, post_ids, m.sources, mos_warns, SNF, kind, D)
         if nothing_resolves and not raised:
             same = (post.story_canons == pre.story_canons) if op in ('delete', 'move', 'swap', 'replace', 'send') \
                 else _is_subseq(pre.story_canons, post.story_canons)
@@ -955,6 +981,8 @@ def _judge_item(pre, post, m, raised, mos_warns, D, v):
         have = {i for i in L if i is not None}
         refs = list(m.sources) + ([m.target] if op in ('replace', 'move', 'insert') else [])
         nothing_resolves = bool(refs) and not any(r[0] == 'id' and r[1] in have for r in refs)
+        if op == 'delete' and not raised and not nothing_resolves:
+            _multiset_delete(L, post_ids, m.sources, mos_warns, INF, kind, D)
         if nothing_resolves and not raised:
             pc = [canon(i) for i in items_of(ps)]
             qc = [canon(i) for i in items_of(qs)]
